@@ -38,6 +38,33 @@ def run(chk):
             extra.append(filelevel.Case(z, 2, k % 3, ops, "large-header"))
     filelevel.run_cases(pair, extra, want_parse=False, want_read=False)
     cases += extra
+    # foreign files (independent Lean writer PQ.specWrite): several pages per chunk with sizes of its own choosing,
+    # per-column codecs, optional metadata, and row groups WITHOUT rows (legal; this library's writer never emits them)
+    class Foreign:
+        def __init__(self, zoo, op, file, tab):
+            self.zoo, self.max, self.impl_file, self.m_ops, self._op = zoo, 100000, file, op[:200], op
+            self.dtab = {} if tab == "-" else dict(kv.split("=") for kv in tab.split(","))
+        def key(self):
+            return self._op
+    fops, fz = [], []
+    gf = zoolib.Gen(chk.rng, mode="mixed", lens=(0, 1, 2, 3))
+    for name in ("three", "flat", "nested", "doc"):
+        z = zs.get(name)
+        if z is None:
+            continue
+        for i in range(8 if thorough else 3):
+            rgs = [[gf.record(z.nodes) for _ in range(chk.rng.choice([1, 2, 5, 9]))] for _ in range(chk.rng.choice([1, 2, 3]))]
+            rgs.insert(chk.rng.randrange(len(rgs) + 1), [])
+            if i % 2:
+                rgs.insert(chk.rng.randrange(len(rgs) + 1), [])
+            codecs = [chk.rng.choice([0, 2]) for _ in z.cols]
+            rtxt = "/".join(";".join(z.proj(r) for r in g) for g in rgs)
+            fops.append("specwrite %s %s %s %d - %s" % (z.cols_text, ",".join(map(str, codecs)), ["sx", "x", "sex", "sxn"][i % 4], chk.rng.randrange(1 << 30), rtxt))
+            fz.append(z)
+    for z, op, r in zip(fz, fops, common.chunked_parallel(pair.model, fops, workers=8, chunk=2)):
+        f = (r.split(" ") + ["-"])[:2]
+        if len(f[0]) > 16:
+            cases.append(Foreign(z, op, f[0], f[1]))
     tabtxt = lambda d: ",".join("%s=%s" % kv for kv in d.items()) or "-"
     par = lambda f, ops: common.chunked_parallel(f, ops, workers=8, chunk=50)
     walk = par(pair.model, ["walk %s %d %s %s" % (c.zoo.cols_text, c.max, c.impl_file, tabtxt(c.dtab)) for c in cases])
@@ -99,7 +126,7 @@ def run(chk):
         "obligations": pr["obligations"], "discharged": pr["discharged"], "axioms": pr["axioms"],
         "checker_cmd": "cd lean && lake build %s" % MODULE, "trusted_base": TRUSTED_BASE, "forbidden_constructs": pr["forbidden_constructs"],
         "evaluations": 2 * len(cases) + len(at_ops), "distinct_nontrivial": len(nontrivial) + len(set(at_ops)),
-        "rule": "valid files of 5 structs x 3 codecs x page sizes (incl. several pages per chunk and two row groups): ReadMetaData vs the footer decoded by the independent Lean thrift decoder; PageHeaders vs one header per page found by the independent walk (PQ.parseFile); PageHeadersAtOffset from EVERY page start with n in {0, nv-1, nv, nv+1, rest of chunk}; non-trivial = distinct call with the expected result",
+        "rule": "valid files of 7 structs x 3 codecs x page sizes (incl. several pages per chunk and two row groups), files with page headers up to > 128 KiB, foreign files from PQ.specWrite incl. row groups without rows: ReadMetaData vs the footer decoded by the independent Lean thrift decoder; PageHeaders vs one header per page found by the independent walk (PQ.parseFile); PageHeadersAtOffset from EVERY page start with n in {0, nv-1, nv, nv+1, rest of chunk}; non-trivial = distinct call with the expected result",
         "samples": [at_ops[0][-60:] if at_ops else "-", cases[0].key()[:200]],
         "tie": "exact: Lean mirrors readMetaData/pageHeaders/pageHeadersAt = Go functions (canonical field-by-field text)",
         "tie_disagreements": len(tie_breaks), "property_failures_on_impl": len(prop_fail),
